@@ -16,6 +16,7 @@ def stream_read(ex, st, recv, args, kw):
         fail = fresh(BOOL, "decode_error")[0]
         if feasible(st.pc, fail.z):
             sb = st.copy(); sb.pc.append(fail.z); yield sb, Raise(ex.new_builtin_exc(sb, "UnicodeDecodeError", ["undecodable byte"]))
+            sc = st.copy(); sc.pc.append(fail.z); yield sc, Raise(ex.new_builtin_exc(sc, "UnicodeError", ["UTF-16 stream does not start with BOM"]))
         st.pc.append(z3.Not(fail.z))
     r = z3.SubString(text, pos, n)
     v, _ = fresh(STR, "rd"); st.pc.append(v.z == r)
